@@ -1015,6 +1015,11 @@ def _eval_enforce(e: ast.expr, edges: int, density: float, env: dict, fi, ctx):
             return edges
         if isinstance(e.func, ast.Name) and e.func.id == "len" and e.args and isinstance(e.args[0], ast.Attribute) and e.args[0].attr == "edges":
             return edges
+        if r and r[0] == "func" and not e.keywords:
+            # a helper of the repository that asks the question: its single `return <expression>` is evaluated in its place
+            body = [st for st in r[1].node.body if not (isinstance(st, ast.Expr) and isinstance(st.value, ast.Constant))]
+            if len(body) == 1 and isinstance(body[0], ast.Return) and body[0].value is not None:
+                return _eval_enforce(body[0].value, edges, density, {}, r[1], ctx)
     raise AnalysisError(f"enforce condition: cannot evaluate `{short(e)}`")
 
 
@@ -1143,12 +1148,14 @@ def r_retry(ctx) -> RuleResult:
                                     "whether that loop ends for every molecule (identical atoms, one atom) is not decided")
         # enforce tests: `if <cond>` whose cond evaluates True for (edges>=2, density<1)
         enforce_nodes = {}
+        unevaluated_tests = []
         for n, a in cfg.ast.items():
             if cfg.kind[n] == "test" and hasattr(a, "test") and n not in guards:
                 try:
                     vals = {(e, d): bool(_eval_enforce(a.test, e, d, env, fi, ctx)) for e, d in
                             ((0, 0.0), (1, 1.0), (1, 0.3), (2, 0.5), (2, 0.67), (3, 1.0), (3, 0.5), (6, 0.4), (10, 0.99))}
                 except AnalysisError:
+                    unevaluated_tests.append(a)
                     continue
                 enforce_nodes[n] = vals
         # Remove from the CFG: the accepting edges of guards, and the false edges of enforce tests whose
@@ -1176,6 +1183,10 @@ def r_retry(ctx) -> RuleResult:
             why = f"no test comparing {m}.edges with {var}.edges guards the return"
         elif reach:
             p = nx.shortest_path(g, cfg.ENTRY, rn)
+            on_path = [t_ for t_ in unevaluated_tests if cfg.node_of(t_) in p]
+            if on_path:
+                raise AnalysisError(f"R-RETRY: the test `{short(on_path[0].test, 60)}` lies on the way to the return without the changed-bond-set test; what it asks about the molecule "
+                                    "(at least two bonds and not complete?) is not evaluated")
             why = "a path reaches the return without passing the changed-edge-set test: " + " ; ".join(cfg.describe(x) for x in p[1:])
         # between the accepting edge and the return the candidate is not reassigned
         if ok:
@@ -1537,7 +1548,8 @@ def r_fixpoint(ctx) -> RuleResult:
     from ..fixsym import FixSym, Undecided
     for fi in drivers:
         try:
-            outs = FixSym(ctx, step, part, lambda f, c: _is_step_call(ctx, f, c, step)).run(fi)
+            fs_ = FixSym(ctx, step, part, lambda f, c: _is_step_call(ctx, f, c, step))
+            outs = fs_.run(fi)
         except Undecided as ex:
             # forms the path-sensitive interpreter does not read: the idiom-based reading (plain loops / recursion)
             _idiom_driver(ctx, fi, step, res, why=str(ex))
@@ -1551,12 +1563,22 @@ def r_fixpoint(ctx) -> RuleResult:
                 raise AnalysisError(f"R-FIXPOINT: cannot relate what `{short(o.node)}` in {o.fi.qualname} hands out to the chain of refinements ({t})")
             k = t[1]
             stable = False
+            partial = None
             for op, x, y in o.facts:
                 if op != "eq":
                     continue
                 for a_, b_ in ((x, y), (y, x)):
                     if isinstance(a_, tuple) and isinstance(b_, tuple) and a_[0] == b_[0] == "cnt" and a_[1] == b_[1] and {a_[2], b_[2]} in ({k, k - 1}, {k, k + 1}):
-                        stable = True
+                        if isinstance(a_[1], str) and a_[1].startswith("partial:"):
+                            partial = fs_.partial_counts.get(a_[1][len("partial:"):], "it does not count all classes")
+                        else:
+                            stable = True
+            if partial and not stable:
+                res.inst(o.fi.fq, short(o.node), "fail", detail=partial)
+                res.fail(Finding("R-FIXPOINT", o.fi.module.rel, o.fi.qualname, norm(o.node),
+                                 f"a partition is handed out when a partial class count did not change between it and its refinement ({partial}): the classes of the other atoms "
+                                 "may still split, the returned partition need not be stable", line=o.node.lineno))
+                continue
             if stable:
                 res.inst(o.fi.fq, short(o.node), "ok", detail="on every path to it the class count equals that of the neighbouring refinement")
             else:
